@@ -337,7 +337,7 @@ func SortedKeys[V any](mp map[string]V) []string {
 // offered by the planner, with generated tuples; the generic generator reaches
 // these shapes only rarely.
 func FamilyWorld(t *rapid.T, o Opts) World {
-	return familyWorld(t, o, rapid.IntRange(0, 8).Draw(t, "family"))
+	return familyWorld(t, o, rapid.IntRange(0, 9).Draw(t, "family"))
 }
 
 // CycleWorld draws a world from the families whose relations are mutually
@@ -455,6 +455,14 @@ func familyWorld(t *rapid.T, o Opts, family int) World {
 				{Name: "parent", Rewrite: this(), Restr: []m.Restriction{{Type: "group"}}},
 				{Name: "r0", Rewrite: this(), Restr: []m.Restriction{{Type: "group", Rel: "r2"}}},
 				{Name: "r1", Rewrite: &m.Rewrite{Kind: m.TTU, Tupleset: "parent", Rel: "r2"}}}})
+	case 9: // TTU / userset over parent types of different weight: one reaches users directly, the other only through a userset
+		types = append(types,
+			m.TypeDef{Name: "group", Relations: []m.Relation{{Name: "r0", Rewrite: this(), Restr: userRestr}}},
+			m.TypeDef{Name: "folder", Relations: []m.Relation{{Name: "r0", Rewrite: this(), Restr: []m.Restriction{{Type: "group", Rel: "r0"}}}}},
+			m.TypeDef{Name: "doc", Relations: []m.Relation{
+				{Name: "parent", Rewrite: this(), Restr: []m.Restriction{{Type: "group"}, {Type: "folder"}}},
+				{Name: "r0", Rewrite: &m.Rewrite{Kind: m.TTU, Tupleset: "parent", Rel: "r0"}},
+				{Name: "r1", Rewrite: this(), Restr: []m.Restriction{{Type: "group", Rel: "r0"}, {Type: "folder", Rel: "r0"}}}}})
 	case 6: // mutually recursive relations through a TTU (tuple cycles over parent are likely)
 		types = append(types, m.TypeDef{Name: "group", Relations: []m.Relation{
 			{Name: "parent", Rewrite: this(), Restr: []m.Restriction{{Type: "group"}}},
@@ -487,6 +495,29 @@ func familyWorld(t *rapid.T, o Opts, family int) World {
 					r.Restr = append(r.Restr, m.Restriction{Type: "user", Cond: c.Name})
 				}
 			}
+		}
+	}
+	if family == 9 && len(mo.Conds) == 0 && chance(t, "famDense", 60) {
+		var ts []m.Tuple
+		add := func(label string, pct int, obj, rel, user string) {
+			if chance(t, label, pct) {
+				ts = append(ts, m.Tuple{Object: obj, Relation: rel, User: user})
+			}
+		}
+		for i := 0; i < o.MaxIDs; i++ {
+			gn, fn, dn := fmt.Sprintf("group:%d", i), fmt.Sprintf("folder:%d", i), fmt.Sprintf("doc:%d", i)
+			add("member", 40, gn, "r0", "user:0")
+			add("member1", 25, gn, "r0", "user:1")
+			for j := 0; j < o.MaxIDs; j++ {
+				add("folderGroup", 35, fn, "r0", fmt.Sprintf("group:%d#r0", j))
+				add("docGroup", 20, dn, "parent", fmt.Sprintf("group:%d", j))
+				add("docFolder", 40, dn, "parent", fmt.Sprintf("folder:%d", j))
+				add("docGroupU", 15, dn, "r1", fmt.Sprintf("group:%d#r0", j))
+				add("docFolderU", 30, dn, "r1", fmt.Sprintf("folder:%d#r0", j))
+			}
+		}
+		if len(ts) > 0 {
+			return World{Model: mo, Tuples: ts}
 		}
 	}
 	if family == 8 && len(mo.Conds) == 0 && chance(t, "famDense", 60) {
